@@ -9,7 +9,9 @@ ALARM_S = 900
 RULE = ("seeded histories of up to 12 operations mixing mutators (add event / transition / birth-death through every "
         "add_* route, add explicit ODE term, add parameter (+ its value), add derived parameter, change parameter values "
         "by full list or partial dict) with observations of a random subset of the 11 compiled evaluators in random order, "
-        "K-seam faults on every recompile; oracle = a freshly constructed model with the same final definition; "
+        "K-seam faults on every recompile, and with a second live model in the same process (another client's never-modified "
+        "model, or the fresh model itself) evaluated between a modification and the observation (H.interleave_other_model); "
+        "oracle = a freshly constructed model with the same final definition, and the bystander keeps its reference values; "
         "non-trivial = at least one evaluator was observed, then the model was mutated, then the same evaluator was "
         "observed again; distinct = distinct case digests")
 MEASURE = "distinct (11-bit compiled-and-fresh evaluator mask before the op, op kind) pairs"
@@ -43,7 +45,11 @@ def gen_history(rng, model, names, params, tier):
             if not evs:
                 continue
             x, t, _ = gen.gen_point(rng, names, [])
-            ops.append({"op": "eval", "names": evs, "x": x, "t": t, "against": "fresh"})
+            ops.append({"op": "eval", "names": evs, "x": x, "t": t, "against": "fresh", "fresh_first": rng.random() < 0.4})
+            continue
+        if r < 0.53:
+            # another client's model is evaluated in between (two live models in one process)
+            ops.append({"op": "bystander", "names": rng.sample(sc.ALL_EVALS, rng.choice([1, 2, 4, 11]))})
             continue
         use = cur_params + derived
         m = rng.random()
@@ -80,7 +86,7 @@ def gen_history(rng, model, names, params, tier):
     x, t, _ = gen.gen_point(rng, names, [])
     evs = list(sc.ALL_EVALS)
     rng.shuffle(evs)
-    ops.append({"op": "eval", "names": evs, "x": x, "t": t, "against": "fresh"})
+    ops.append({"op": "eval", "names": evs, "x": x, "t": t, "against": "fresh", "fresh_first": rng.random() < 0.4})
     return ops
 
 
